@@ -8,6 +8,8 @@ git apply "$patch" || { echo "patch does not apply"; exit 2; }
 cd /verif && ./run.sh "$prop" "$tier" > /verif/out/mutant_run.log 2>&1
 code=$?
 git -C /repo checkout -- .
+# rebuild against the restored tree so that no mutant binary is left behind
+(cd /verif/harness && CARGO_NET_OFFLINE=true cargo build --release --offline >/dev/null 2>&1)
 tail -n 6 /verif/out/mutant_run.log
 echo "exit=$code"
 exit $code
